@@ -6,6 +6,7 @@ import (
 	"fmt"
 	"io"
 
+	"github.com/gorilla/websocket"
 	"pgregory.net/rapid"
 
 	"verifharness/xport"
@@ -21,6 +22,10 @@ type FaultCase struct {
 	// sub-case); -1/"" = all.
 	OnlyOffset int    `json:"only_offset"`
 	OnlyKind   string `json:"only_kind,omitempty"`
+	// Join: the whole stream is read through one JoinMessages reader (with
+	// terminator Term) instead of the read program.
+	Join bool   `json:"join,omitempty"`
+	Term string `json:"term,omitempty"`
 }
 
 type faultKind struct {
@@ -57,6 +62,10 @@ func genFaultCase(t *rapid.T) FaultCase {
 	}
 	c.Later = rapid.SampledFrom([]int{1, 3, 3, 10, 900}).Draw(t, "later")
 	c.OnlyOffset = -1
+	if rapid.IntRange(0, 5).Draw(t, "join") == 0 {
+		c.Join = true
+		c.Term = rapid.SampledFrom([]string{"\n", "||", "\n", ""}).Draw(t, "term")
+	}
 	return c
 }
 
@@ -169,7 +178,99 @@ func checkC05(c FaultCase, o *Obs) error {
 	return nil
 }
 
+// runFaultJoin is runFault for a stream consumed through JoinMessages.
+func runFaultJoin(c FaultCase, model *Model, off int, fk faultKind, later int, o *Obs) error {
+	tr := xport.NewScriptConn(nil, nil)
+	tr.NoLog = true
+	conn, err := NewConn(c.R, tr, nil)
+	if err != nil {
+		return err
+	}
+	tr.SetInput(model.Wire, c.Chunks)
+	tr.SetReadFault(&xport.ReadFault{Offset: off, Kind: fk.kind, WithData: fk.withData, Resume: fk.resume})
+	h := &handlerLog{failAt: -1}
+	h.install(conn)
+	var joined []byte
+	var bounds []int // joined length after message i and its terminator
+	for _, m := range model.Msgs {
+		joined = append(joined, m.Payload...)
+		joined = append(joined, c.Term...)
+		bounds = append(bounds, len(joined))
+	}
+	sr := &sizedReader{}
+	if len(c.Reads) > 0 {
+		sr.sizes = c.Reads[0].Sizes
+	}
+	jr := websocket.JoinMessages(conn, c.Term)
+	var got []byte
+	var ferr error
+	idle := 0
+	for ferr == nil {
+		buf := make([]byte, sr.next())
+		k, e := jr.Read(buf)
+		got = append(got, buf[:k]...)
+		ferr = e
+		if k == 0 && e == nil && len(buf) > 0 {
+			if idle++; idle > 200 {
+				return errors.New("joined reader returns (0, nil) forever")
+			}
+		}
+		if len(got) > len(joined)+16 {
+			break
+		}
+	}
+	if !tr.ReadFaultFired() {
+		return nil
+	}
+	a, b := off, tr.BeforeFault
+	if fk.resume {
+		a = tr.TotalIn
+	}
+	if len(got) > len(joined) || !bytes.Equal(got, joined[:len(got)]) {
+		return fmt.Errorf("JoinMessages(term %q): the %d bytes delivered are not a prefix of the joined messages (differs at %d)", c.Term, len(got), firstDiff(got, joined))
+	}
+	if ferr == nil {
+		return fmt.Errorf("JoinMessages(term %q): no error was reported after the transport fault", c.Term)
+	}
+	// messages the joined reader reported complete (terminator delivered)
+	reported, atBoundary := 0, len(got) == 0
+	for i, bd := range bounds {
+		if bd <= len(got) && (c.Term != "" || bd < len(got)) {
+			reported = i + 1
+		}
+		if bd == len(got) {
+			atBoundary = true
+		}
+	}
+	for i := 0; i < reported; i++ {
+		if m := model.Msgs[i]; m.End > a && !m.SelfTerminating {
+			return fmt.Errorf("JoinMessages(term %q): message %d and its terminator were delivered, but only %d of its %d wire bytes had arrived - truncated message reported as complete", c.Term, i, a-m.Start, m.End-m.Start)
+		}
+	}
+	if ferr == io.EOF && !atBoundary {
+		return fmt.Errorf("JoinMessages(term %q): the joined stream ended with io.EOF after %d bytes, in the middle of a message - a partially received message is reported as the clean end of the stream", c.Term, len(got))
+	}
+	if min := countInside(model, b); min > 0 && len(got) < bounds[min-1] {
+		return fmt.Errorf("JoinMessages(term %q): %d messages had fully arrived before the failing transport read, but only %d of the %d bytes they join to were delivered before the error %v", c.Term, min, len(got), bounds[min-1], ferr)
+	}
+	for i := 0; i < later && i < 5; i++ {
+		var xb [32]byte
+		if k, e := jr.Read(xb[:]); k != 0 || e == nil {
+			return fmt.Errorf("JoinMessages(term %q): read %d after the error %v returned %d bytes, error %v", c.Term, i+1, ferr, k, e)
+		}
+	}
+	cls := offsetClass(model, off)
+	o.Class("joined_cut_" + cls)
+	if cls == "inside_header" || cls == "inside_payload" || cls == "between_fragments" {
+		o.NonTrivial(fmt.Sprintf("j%d/%s", off, fk.name))
+	}
+	return nil
+}
+
 func runFault(c FaultCase, model *Model, lens []int, off int, fk faultKind, later int, o *Obs) error {
+	if c.Join {
+		return runFaultJoin(c, model, off, fk, later, o)
+	}
 	tr := xport.NewScriptConn(nil, nil)
 	tr.NoLog = true
 	conn, err := NewConn(c.R, tr, nil)
